@@ -184,7 +184,8 @@ G_S = Unit(['C08', 'C06'], PR + 'Gaussian.sample', _g_params,
            post=lambda c, v0, v1, r: {'inverse_cdf': c.Eq(r, v0.self._loc + v0.self._scale * c.probit(v0.x)),
                                       'median': c.Implies(c.Eq(v0.x, 0.5), c.Eq(r, v0.self._loc))},
            native=_gs_native, gen=lambda rng: dict(loc=rng.uniform(-5, 5), scale=rng.uniform(0.1, 3),
-                                                   x=rng.choice([0.5, rng.uniform(0.01, 0.99)])),
+                                                   x=rng.choice([0.5, rng.uniform(0.01, 0.99), rng.uniform(0.01, 0.99), 10 ** rng.uniform(-300, -3),
+                                                                 1 - 10 ** rng.uniform(-15, -3)])),
            result=lambda ex, st, v0: ex.c.fresh('g', z3.RealSort()), bounds=[{}], short='Gaussian.sample',
            doc='scipy.stats.norm.ppf assumed = loc + scale*probit(x)')
 
